@@ -129,7 +129,7 @@ func (o Opts) apply() {
 }
 
 func (o Opts) applyExplicit(skipToggled bool) {
-	mxj.SetAttrPrefix(o.AttrPrefix)
+	setAttrPrefixBy(o.AttrPrefix, o.ViaToggle)
 	mxj.SetGlobalKeyMapPrefix(o.KeyPrefix)
 	if !skipToggled {
 		mxj.CoerceKeysToLower(o.Lower)
@@ -342,4 +342,96 @@ func underOtherOptions(call func()) {
 	call()
 	mxj.IncludeTagSeqNum(seq)
 	mxj.SetAttrPrefix(prefix)
+}
+
+// setAttrPrefixBy brings the attribute prefix to p; for "" and "-" the documented alternative PrependAttrWithHyphen is
+// used when alt is set (PrependAttrWithHyphen(false) "is the same as SetAttrPrefix("")").
+func setAttrPrefixBy(p string, alt bool) {
+	switch {
+	case alt && p == "":
+		mxj.PrependAttrWithHyphen(false)
+	case alt && p == "-":
+		mxj.SetAttrPrefix("zz") // something else first, so that the call below has work to do
+		mxj.PrependAttrWithHyphen(true)
+	default:
+		mxj.SetAttrPrefix(p)
+	}
+}
+
+// optionDetour changes package options and puts every one of them back to its default through the documented calls
+// (another route than resetOptions takes): afterwards every function behaves as in a fresh process.
+func optionDetour(sel int) {
+	switch sel % 8 {
+	case 1:
+		mxj.SetAttrPrefix("attr_")
+		mxj.SetAttrPrefix("-")
+	case 2:
+		mxj.PrependAttrWithHyphen(false)
+		mxj.SetAttrPrefix("-")
+	case 3:
+		mxj.SetAttrPrefix("@@")
+		mxj.PrependAttrWithHyphen(true)
+	case 4:
+		mxj.SetGlobalKeyMapPrefix("_")
+		mxj.SetGlobalKeyMapPrefix("#")
+	case 5:
+		mxj.SetFieldSeparator("|")
+		mxj.SetFieldSeparator()
+	case 6:
+		mxj.LeafUseDotNotation(true)
+		mxj.LeafUseDotNotation()
+	case 7:
+		mxj.XMLEscapeChars(true)
+		mxj.XMLEscapeCharsDecoder(true)
+		mxj.XMLEscapeCharsDecoder(false)
+	}
+}
+
+// flipOne changes exactly ONE decoder option through its own setter - no other setter is called - and returns the
+// option set that is in force afterwards. Whatever the library derives from its options (snapshots, tables, caches)
+// must follow every single setter.
+func (o Opts) flipOne(i int) Opts {
+	switch i % 11 {
+	case 0:
+		o.Lower = !o.Lower
+		mxj.CoerceKeysToLower(o.Lower)
+	case 1:
+		o.Snake = !o.Snake
+		mxj.CoerceKeysToSnakeCase(o.Snake)
+	case 2:
+		o.SimpleAsMap = !o.SimpleAsMap
+		mxj.DecodeSimpleValuesAsMap(o.SimpleAsMap)
+	case 3:
+		o.KeepSpaces = !o.KeepSpaces
+		mxj.DisableTrimWhiteSpace(o.KeepSpaces)
+	case 4:
+		o.SeqNum = !o.SeqNum
+		mxj.IncludeTagSeqNum(o.SeqNum)
+	case 5:
+		o.DecEscape = !o.DecEscape
+		if o.DecEscape {
+			o.EncEscape = false // the documented interlock
+		}
+		mxj.XMLEscapeCharsDecoder(o.DecEscape)
+	case 6:
+		if o.AttrPrefix == "@" {
+			o.AttrPrefix = "-"
+		} else {
+			o.AttrPrefix = "@"
+		}
+		mxj.SetAttrPrefix(o.AttrPrefix)
+	case 7:
+		o.CastInt = !o.CastInt
+		mxj.CastValuesToInt(o.CastInt)
+	case 8:
+		o.NoCastFloat = !o.NoCastFloat
+		mxj.CastValuesToFloat(!o.NoCastFloat)
+	case 9:
+		o.NoCastBool = !o.NoCastBool
+		mxj.CastValuesToBool(!o.NoCastBool)
+	case 10:
+		o.CastNanInf = !o.CastNanInf
+		mxj.CastNanInf(o.CastNanInf)
+	}
+	return o
 }
